@@ -74,4 +74,9 @@ PROPS = {
         "rule": "1-2 orders handed to providers by their gateway (replica 1..N, N = 3..5 eligible providers, timeout 2-25 mostly, 50-300, 300-2000 in the thorough tier, negative values that Store's own validation accepts, duration 3600-9000); the generator owns the silence pattern: for every shard assignment (initial or after re-assignment) it draws whether the provider stays silent or completes after 0..T+2 blocks, and plays it as ordinary complete/advance actions. Oracle (bounded liveness as safety): while unfinished the order is named by a future TimeoutOrder entry; by created+(10+N+2)*T it is resolved (fully stored for its possibly reduced replica count, or gone); replica reductions and give-ups refund the unfulfilled part in the same end-blocker step; once fully stored its replica count, amount, status and completed shards never change again and nothing is re-assigned (until the end of the paid term). Non-trivial = a re-assignment, a replica reduction or a give-up happened.",
         "assumptions": LIFE_ASSUME + ["'eventually' is replaced by the explicit bound (10 + N + 2) timeout intervals", "deleting dead Timeout-status shard records after completion is tolerated", "orders never handed to providers (client Store without Ready) are outside the statement"],
     },
+    "C16": {
+        "tests": [{"name": "TestC16", "quick": 400, "thorough": 8000}],
+        "rule": "one or two data models, owner + read-write grantee + several gateways; interleavings of Store (new, update, force-push) while another update is in flight, Complete, Cancel, timeouts, terminate, renew, with the base|new commit field drawn from the hostile commit grammar and signed by authorised principals: exact latest, older version, prefix / suffix / inner substring / single character of the latest id, empty base, no separator, several separators, unrelated base. Reference model per data id: chain V of accepted versions and the update in flight. Oracle: new order and shard ids are strictly greater than every id ever observed and removed ids never reappear (counters never decrease); a Store on an existing model succeeds only if nothing is in flight and its base (text before the first '|', or the whole field) equals last(V); only the in-flight order's completion commits a version; Metadata.Commits equals V at every boundary and after every message (update appends, force-push replaces the last entry); at most one non-final order per data id. Non-trivial = a Store was attempted while one was in flight or with a base other than the latest, and an update completed.",
+        "assumptions": LIFE_ASSUME + ["'names the latest committed version as its base' is read as equality of the text before the first '|' (or the whole field) with the latest commit id; re-submitting the current commit id is therefore accepted"],
+    },
 }
